@@ -20,7 +20,7 @@ EXPLANATION = (
     " (R6) the MT writer's public calls are total: no explicit panic in any of its functions — the Done state, which send() enters by itself when the writer thread has failed, is an error exit (genuine defect F9, repaired; the MT reader's identical construct is the matcher's positive control, its Done state is only entered by the caller's own finish())."
     " (R7) one necessary condition of 'seek and finish always terminate' is structural: the MT reader's ticket queue and recycle queue are bounded by the same value n as the priming loop 0..n (or n + k), so the reader thread can never block in send() while pause()/finish() join it."
     " (R8) the MT reader's seek is an instance of the seek typestate rule of C02.R1: the in-block cursor is positioned only after this very seek repositioned the source and loaded the block."
-    " (R9) sibling agreement: the sequential loader behind fill_buf / poll_fill_buf of every BGZF reader (single-threaded, indexed, multithreaded, async) keeps loading while the block it received is empty — the block stamp sits in a loop with an exit controlled by the block's data length. (R10) a failed block costs the multithreaded reader neither a buffer nor its place (genuine defect F64, repaired).")
+    " (R9) sibling agreement: the sequential loader behind fill_buf / poll_fill_buf of every BGZF reader (single-threaded, indexed, multithreaded, async) keeps loading while the block it received is empty — the block stamp sits in a loop with an exit controlled by the block's data length. (R10) a failed block costs the multithreaded reader neither a buffer nor its place (genuine defect F64, repaired). (R11) MultithreadedWriter::write hands the bytes of the caller to the staging buffer only.")
 ASSUMPTIONS = ["crossbeam channels are FIFO and Receiver::recv blocks until a value or disconnect",
                "rayon::spawn runs the closure exactly once",
                "std::thread::JoinHandle::join returns the closure's value"]
